@@ -782,6 +782,12 @@ pub fn bytes_pass<F: Fam>(rep: &mut Report, b: &[u8], rng: &mut Rng, fl: &ByteFl
                     if !ok1 || !ok2 {
                         rep.fail("reencode-not-fixpoint", input.clone(), format!("{}: re-encoding {} does not decode back to the packet (blocking ok={}, poll ok={})", fe, hex(&e2), ok1, ok2));
                     }
+                    // "can be re-encoded": through the async encoder entry point as well (plain sink)
+                    if let Some((r, written, _)) = guard(rep, "reencode-panic", &input, || F::encode_async_counted(&p, vec![])) {
+                        if r.is_err() || written != e2 {
+                            rep.fail("reencode-async-differs", input.clone(), format!("{}: encode_async on the accepted packet gave {:?} and wrote {} bytes; encode() gives {} bytes", fe, r.map_err(|e| e.text), written.len(), e2.len()));
+                        }
+                    }
                 }
                 Some(Err(e)) => rep.fail("reencode-error", input.clone(), format!("{}: accepted packet cannot be re-encoded: {}", fe, e.text)),
                 None => {}
